@@ -4,6 +4,7 @@ package main
 // nil-ness of returned errors, call-site enumeration.
 
 import (
+	"fmt"
 	"go/token"
 	"go/types"
 	"sort"
@@ -558,6 +559,33 @@ type pathEnd struct {
 func (w *World) enumPaths(fn *ssa.Function, eval func(cond ssa.Value) (val bool, known bool), event func(in ssa.Instruction) string, max int) ([]pathEnd, bool) {
 	var out []pathEnd
 	complete := true
+	// events are labelled once per instruction, so that two paths through the same
+	// instructions carry the same labels
+	evCache := map[ssa.Instruction]string{}
+	rawEvent := event
+	event = func(in ssa.Instruction) string {
+		if e, ok := evCache[in]; ok {
+			return e
+		}
+		e := rawEvent(in)
+		evCache[in] = e
+		return e
+	}
+	// two arrivals at a block with the same event history and the same
+	// loop-relevant part of the current path have identical continuations:
+	// explore only the first (branches without events do not multiply paths)
+	reach := blockReach(fn)
+	visited := map[string]bool{}
+	sig := func(b *ssa.BasicBlock, ev []string, onPath map[*ssa.BasicBlock]int) string {
+		var lp []string
+		for ob, c := range onPath {
+			if c > 0 && reach[b.Index][ob.Index] {
+				lp = append(lp, fmt.Sprintf("%d:%d", ob.Index, c))
+			}
+		}
+		sort.Strings(lp)
+		return fmt.Sprintf("%d|%s|%s", b.Index, strings.Join(ev, "\x00"), strings.Join(lp, ","))
+	}
 	var walk func(b *ssa.BasicBlock, ev []string, onPath map[*ssa.BasicBlock]int)
 	walk = func(b *ssa.BasicBlock, ev []string, onPath map[*ssa.BasicBlock]int) {
 		if len(out) >= max {
@@ -567,6 +595,11 @@ func (w *World) enumPaths(fn *ssa.Function, eval func(cond ssa.Value) (val bool,
 		if onPath[b] >= 2 {
 			out = append(out, pathEnd{append([]string(nil), ev...), "loop"})
 			return
+		}
+		if k := sig(b, ev, onPath); visited[k] {
+			return
+		} else {
+			visited[k] = true
 		}
 		onPath[b]++
 		defer func() { onPath[b]-- }()
@@ -625,4 +658,26 @@ func (w *World) enumPaths(fn *ssa.Function, eval func(cond ssa.Value) (val bool,
 		walk(fn.Blocks[0], nil, map[*ssa.BasicBlock]int{})
 	}
 	return out, complete
+}
+
+// blockReach[i][j]: block j is reachable from block i along CFG edges (i != j
+// unless i lies on a cycle).
+func blockReach(fn *ssa.Function) [][]bool {
+	n := len(fn.Blocks)
+	out := make([][]bool, n)
+	for i, b := range fn.Blocks {
+		row := make([]bool, n)
+		stack := append([]*ssa.BasicBlock(nil), b.Succs...)
+		for len(stack) > 0 {
+			x := stack[len(stack)-1]
+			stack = stack[:len(stack)-1]
+			if row[x.Index] {
+				continue
+			}
+			row[x.Index] = true
+			stack = append(stack, x.Succs...)
+		}
+		out[i] = row
+	}
+	return out
 }
